@@ -47,6 +47,12 @@ func (g *G) templateStmt() *lang.Node {
 		return seq(lang.Define(ta, mkf(n("x"), n("y"))), lang.Define(tb, mkf(n("p"), n("q"))),
 			lang.Define(r, lang.Array(lang.Call(lang.Ident(ta), lang.Int(7), lang.Int(2)), lang.Call(lang.Ident(tb), a1, a2))))
 	}
+	if g.chance(90, "tplMixedRec") {
+		return g.mixedRecursionTemplate(n)
+	}
+	if g.chance(70, "tplCopiedClosure") && g.builtinFree("copy") && !(g.o.ScopeIndep && g.loopDepth > 0 && g.fnDepth == 0) {
+		return g.copiedClosureTemplate(n)
+	}
 	switch g.weighted("template", 6, 6, 5, 5, 4, 3, 4, 3) {
 	case 0:
 		// counter factory: closure updating a captured variable
@@ -219,6 +225,102 @@ func (g *G) templateStmt() *lang.Node {
 			lang.ExprStmt(lang.Call(lang.Sel(lang.Ident(o), "set"), z2)),
 			lang.Define(n("g2"), lang.Call(lang.Sel(lang.Ident(o), "get"))))
 	}
+}
+
+// mixedRecursionTemplate emits one function whose direct self calls stand,
+// depth by depth, in every position a call can have: `return f(..)` (tail
+// call, frame reused), `f(..)` as the last statement (falls off the end:
+// undefined), `f(..); return` (statement-form tail call), `f(..)` followed by
+// more code, and `return 1 + f(..)` (no tail call). The position taken at each
+// depth comes from a literal pattern, so that one activation chain mixes them
+// in a generated order.
+func (g *G) mixedRecursionTemplate(n func(string) string) *lang.Node {
+	g.feat("tpl:mixed-self-recursion")
+	f, k, acc, r := n("mr"), n("k"), n("acc"), n("mrr")
+	depth := 2 + g.draw(5, "mrDepth")
+	pat := make([]int, depth)
+	for i := range pat {
+		pat[i] = g.draw(5, "mrPos")
+	}
+	call := func() *lang.Node {
+		return lang.Call(lang.Ident(f), lang.Binary("+", lang.Ident(k), lang.Int(1)), lang.Binary("+", lang.Ident(acc), lang.Ident(k)))
+	}
+	at := func(pos int) *lang.Node {
+		var conds *lang.Node
+		for i, p := range pat {
+			if p != pos {
+				continue
+			}
+			c := lang.Binary("==", lang.Ident(k), lang.Int(int64(i)))
+			if conds == nil {
+				conds = c
+			} else {
+				conds = lang.Binary("||", conds, c)
+			}
+		}
+		if conds == nil {
+			conds = lang.Bool(false)
+		}
+		return conds
+	}
+	base := g.intLit()
+	body := lang.Block(
+		lang.If(nil, lang.Binary(">=", lang.Ident(k), lang.Int(int64(depth))), lang.Block(lang.Return(lang.Binary("+", lang.Ident(acc), base))), nil),
+		lang.If(nil, at(0), lang.Block(lang.Return(call())), nil),
+		lang.If(nil, at(1), lang.Block(lang.ExprStmt(call()), lang.Return(nil)), nil),
+		lang.If(nil, at(2), lang.Block(lang.Return(lang.Binary("+", lang.Int(1), call()))), nil),
+		lang.If(nil, at(3), lang.Block(lang.ExprStmt(call()), lang.Assign("+=", lang.Ident(acc), lang.Int(1)), lang.Return(lang.Ident(acc))), nil),
+		lang.ExprStmt(call()))
+	g.declare(&vinfo{name: f, t: TFn, arity: 2, ptys: []Ty{TInt, TInt}})
+	g.declare(&vinfo{name: r, t: TArr, elem: TAny})
+	return seq(lang.Define(f, lang.Func([]string{k, acc}, false, body)),
+		lang.Define(r, lang.Array(lang.Call(lang.Ident(f), lang.Int(0), lang.Int(0)), lang.Call(lang.Ident(f), lang.Int(int64(g.draw(depth+1, "mrStart"))), lang.Int(10)))))
+}
+
+// copiedClosureTemplate: a closure updating a captured variable goes through
+// copy() - directly or inside a copied array / map - and original, copy and
+// the enclosing code then all update and read the variable: the copy of a
+// closure shares the captured variables of the original.
+func (g *G) copiedClosureTemplate(n func(string) string) *lang.Node {
+	g.feat("tpl:copied-closure")
+	cv, cf, cg, r := n("cv"), n("cf"), n("cg"), n("ccr")
+	d := n("d")
+	op := []string{"+=", "-=", "*="}[g.draw(3, "ccOp")]
+	fn := lang.Func([]string{d}, false, lang.Block(lang.Assign(op, lang.Ident(cv), lang.Ident(d)), lang.Return(lang.Ident(cv))))
+	var cp *lang.Node
+	switch g.draw(4, "ccVia") {
+	case 0:
+		cp = lang.Call(lang.Ident("copy"), lang.Ident(cf))
+	case 1:
+		cp = lang.Index(lang.Call(lang.Ident("copy"), lang.Array(lang.Int(0), lang.Ident(cf))), lang.Int(1))
+	case 2:
+		cp = lang.Sel(lang.Call(lang.Ident("copy"), lang.Map([]string{"f"}, []*lang.Node{lang.Ident(cf)})), "f")
+	default:
+		cp = lang.Index(lang.Index(lang.Call(lang.Ident("copy"), lang.Array(lang.Array(lang.Ident(cf)))), lang.Int(0)), lang.Int(0))
+	}
+	i0, i1, i2, i3, i4 := g.intLit(), g.intLit(), g.intLit(), g.intLit(), g.intLit()
+	stmts := []*lang.Node{
+		lang.Define(cv, i0),
+		lang.Define(cf, fn),
+		lang.Define(cg, cp),
+		lang.Define(r, lang.Array(lang.Call(lang.Ident(cf), i1), lang.Call(lang.Ident(cg), i2), lang.Ident(cv))),
+		lang.Assign("=", lang.Ident(cv), i3),
+		lang.Assign("=", lang.Ident(r), lang.Binary("+", lang.Ident(r), lang.Array(lang.Call(lang.Ident(cg), i4), lang.Call(lang.Ident(cf), lang.Int(1)), lang.Ident(cv)))),
+	}
+	wrap := g.fnDepth == 0 && g.chance(500, "ccInFn") && !g.o.ScopeIndep
+	if wrap {
+		// inside a function the variable is a local captured through a
+		// free-variable cell rather than a global
+		res := n("ccw")
+		g.declare(&vinfo{name: res, t: TArr, elem: TInt})
+		stmts = append(stmts, lang.Return(lang.Ident(r)))
+		return lang.Define(res, lang.Call(lang.Func(nil, false, lang.Block(stmts...))))
+	}
+	g.declare(&vinfo{name: cv, t: TInt})
+	g.declare(&vinfo{name: cf, t: TFn, arity: 1, ptys: []Ty{TInt}})
+	g.declare(&vinfo{name: cg, t: TFn, arity: 1, ptys: []Ty{TInt}})
+	g.declare(&vinfo{name: r, t: TArr, elem: TInt})
+	return seq(stmts...)
 }
 
 // seq groups several statements; block() splices them into the enclosing
